@@ -20,6 +20,21 @@ def _get_properties_dict(properties):
         ) from e
 
 
+def _keep_property_order(obj):
+    """
+    Put the properties of the object back into definition order after one was
+    added outside the constructor (the serialized order follows it, and a
+    parsed copy has them in definition order).
+    """
+    order = list(obj._properties)
+    obj._inner = dict(
+        sorted(
+            obj._inner.items(),
+            key=lambda kv: order.index(kv[0]) if kv[0] in order else len(order),
+        ),
+    )
+
+
 def _custom_object_builder(cls, type, properties, version, base_class):
     prop_dict = _get_properties_dict(properties)
 
@@ -35,6 +50,7 @@ def _custom_object_builder(cls, type, properties, version, base_class):
             if ext and version != '2.0':
                 if 'extensions' not in self._inner:
                     self._inner['extensions'] = {}
+                    _keep_property_order(self)
                 self._inner['extensions'][ext] = class_for_type(ext, version, "extensions")()
 
     _CustomObject.__name__ = cls.__name__
@@ -81,6 +97,7 @@ def _custom_observable_builder(cls, type, properties, version, base_class, id_co
             if ext and version != '2.0':
                 if 'extensions' not in self._inner:
                     self._inner['extensions'] = {}
+                    _keep_property_order(self)
                 self._inner['extensions'][ext] = class_for_type(ext, version, "extensions")()
 
     _CustomObservable.__name__ = cls.__name__
